@@ -938,14 +938,17 @@ func runC08(r *Run) {
 				slashed := dependsOn(mu.Key, func(v ssa.Value) bool {
 					switch x := v.(type) {
 					case *ssa.BinOp: // "/" + prefix
-						if x.Op == token.ADD {
+						if x.Op == token.ADD && (x.Parent() == nil || x.Parent().Name() != "getGroupPath") { // the slash getGroupPath puts between its two parts is not a leading one
 							if s, ok := constString(asConst(x.X)); ok && s == "/" {
 								return dependsOn(x.Y, func(y ssa.Value) bool { return y == prefixParam }) != nil
 							}
 						}
 					case *ssa.Call: // getGroupPath(base, prefix) puts the slash in front of its second argument
+						// — the result starts with a slash only if its first argument does (a group's Prefix is kept as written)
 						if calleeName(&x.Call) == fiberMod+".getGroupPath" && len(x.Call.Args) == 2 {
-							return dependsOn(x.Call.Args[1], func(y ssa.Value) bool { return y == prefixParam }) != nil
+							if s, ok := constString(asConst(stripValue(x.Call.Args[0]))); ok && strings.HasPrefix(s, "/") {
+								return dependsOn(x.Call.Args[1], func(y ssa.Value) bool { return y == prefixParam }) != nil
+							}
 						}
 					}
 					return false
